@@ -112,7 +112,7 @@ def run(tier, seed):
     kinds = {'exhaustive_small': 0, 'random': 0, 'accept_all': 0}; distinct = set(); acc_all_text = {}
     for (di, acts), (res, err), line in zip(jobs, outs, lines):
         ck.count()
-        case = {'doc': {k: alldocs[di][k] for k in ('stories', 'comments', 'next_uid', 'rpr_table')}, 'actions': acts}
+        case = {'doc': A.doc_core(alldocs[di]), 'actions': acts}
         mo = next(mall) if acts == 'ALL' else next(mrev)
         if err: ck.violation('oracle', case, 'review raised ' + err); continue
         ap, sk, ob = res
